@@ -368,6 +368,8 @@ func checkC10(w *World) {
 			// source slice is (a load of) some cursor's list field
 			src := c.Call.Args[1]
 			fromList := ""
+			var srcOwner ssa.Value
+			srcField := -1
 			backSlice(src, func(v ssa.Value) bool {
 				if u, ok := v.(*ssa.UnOp); ok {
 					if fa, ok := u.X.(*ssa.FieldAddr); ok {
@@ -375,6 +377,7 @@ func checkC10(w *World) {
 							r := sf.roleOf(fa.Field)
 							if r == "namespaces" || r == "attributes" || r == "children" {
 								fromList = r
+								srcOwner, srcField = fa.X, fa.Field
 								return false
 							}
 						}
@@ -385,6 +388,21 @@ func checkC10(w *World) {
 			})
 			if fromList == "" {
 				return
+			}
+			// re-arranging one owner's own list (removing an entry: X.list = append(X.list[:i], X.list[i+1:]...)) moves
+			// no cursor to another element: the result goes back into the same field of the same object
+			if b.Name() == "append" {
+				same := false
+				for _, rr := range referrers(c) {
+					if st, ok := rr.(*ssa.Store); ok && st.Val == ssa.Value(c) {
+						if fa, ok := st.Addr.(*ssa.FieldAddr); ok && fa.X == srcOwner && fa.Field == srcField {
+							same = true
+						}
+					}
+				}
+				if same {
+					return
+				}
 			}
 			n3++
 			w.check(P, "R10.3", fmt.Sprintf("elements of an existing %s list put into another list", fromList), c.Pos(), false, "cursor objects of another element's "+fromList+" list are copied into a new list: the same node object then sits in two elements' lists, its Parent() is the old owner and any later write to it affects both")
@@ -774,7 +792,7 @@ func checkC10(w *World) {
 	w.floor(P, "R10.7", 2)
 
 	// R10.8 no event is dropped
-	docRule(P, "R10.8", "D", "every non-end, non-error event of the stream becomes a node: on every path from the Pull call to the next Pull (or recursive call) a cursor constructor is called (directly or through a helper that always calls one); nothing is filtered by value.")
+	docRule(P, "R10.8", "D", "every non-end, non-error event of the stream becomes a node: on every path from the Pull call to the next Pull (or recursive call) a cursor constructor is called (directly or through a helper that calls one on every path); nothing is filtered by value, with the one exception the data model makes: a namespace event whose NamespaceValue() is empty is an un-declaration (xmlns=\"\") and creates no node (C09 R09.10).")
 	for _, fn := range pullers {
 		var pull *ssa.Call
 		allInstrs(fn, func(in ssa.Instruction) {
@@ -805,11 +823,7 @@ func checkC10(w *World) {
 				return true
 			}
 			if fnPkgKey(sc) == "store" && sc != fn {
-				for g := range staticReach(sc, func(x *ssa.Function) bool { return fnPkgKey(x) == "store" }) {
-					if _, ok := sf.Ctors[g]; ok {
-						return true
-					}
-				}
+				return mustConstruct(sc, sf, map[*ssa.Function]bool{}, 0)
 			}
 			return false
 		}
@@ -940,4 +954,72 @@ func addsAtLeastOne(v ssa.Value, depth int) (bool, string) {
 		return false, "a sum without an increment (" + describe(v) + "): for the first node it equals the counter's current value"
 	}
 	return true, "the counter plus at least one"
+}
+
+// emptyNamespaceTest: v compares NamespaceValue() of a node with the empty string; eq tells which edge is "empty".
+func emptyNamespaceTest(v ssa.Value) (isTest bool, eqOnTrue bool) {
+	bo, ok := v.(*ssa.BinOp)
+	if !ok || (bo.Op != token.EQL && bo.Op != token.NEQ) {
+		return false, false
+	}
+	x, y := bo.X, bo.Y
+	if s, isC := constString(x); isC && s == "" {
+		x, y = y, x
+	}
+	if s, isC := constString(y); !isC || s != "" {
+		return false, false
+	}
+	if _, ok := isMethodCall(x, "NamespaceValue"); !ok {
+		return false, false
+	}
+	return true, bo.Op == token.EQL
+}
+
+// mustConstruct: every path through fn from its entry to a return calls a cursor constructor (or a helper that
+// must), except the paths on which a namespace value was tested to be empty.
+func mustConstruct(fn *ssa.Function, sf *storeFacts, inProgress map[*ssa.Function]bool, depth int) bool {
+	if depth > 4 || inProgress[fn] || len(fn.Blocks) == 0 {
+		return false
+	}
+	inProgress[fn] = true
+	defer delete(inProgress, fn)
+	ok := true
+	seen := map[*ssa.BasicBlock]bool{}
+	var walk func(b *ssa.BasicBlock)
+	walk = func(b *ssa.BasicBlock) {
+		if seen[b] || !ok {
+			return
+		}
+		seen[b] = true
+		for _, in := range b.Instrs {
+			switch x := in.(type) {
+			case *ssa.Call:
+				if sc := staticCallee(x); sc != nil {
+					if _, isCtor := sf.Ctors[sc]; isCtor {
+						return
+					}
+					if fnPkgKey(sc) == "store" && sc != fn && mustConstruct(sc, sf, inProgress, depth+1) {
+						return
+					}
+				}
+			case *ssa.Return:
+				ok = false
+				return
+			case *ssa.If:
+				if isT, eqTrue := emptyNamespaceTest(x.Cond); isT {
+					if eqTrue {
+						walk(b.Succs[1])
+					} else {
+						walk(b.Succs[0])
+					}
+					return
+				}
+			}
+		}
+		for _, s := range b.Succs {
+			walk(s)
+		}
+	}
+	walk(fn.Blocks[0])
+	return ok
 }
